@@ -16,6 +16,7 @@ EXPLANATION = (
     "built from config.session_timeout / session_cache_capacity and is reached only through these methods. "
     "These are necessary conditions: an accessor without the age test returns a session idle for longer than "
     "the timeout (the handler reaches sessions only through get/get_mut).")
+EXPLANATION += (' Added while testing: R2 also requires insert to move an existing key to the back (LinkedHashMap::insert); R3 also requires LruTimeCache::new to keep every given capacity unchanged and Config.session_timeout / session_cache_capacity to be written only by their setters and the defaults.')
 NOT_DECIDED = ["wall-clock behaviour (that Instant::now advances); that the entry compared is the entry returned"]
 TRUSTED = ["hashlink::LinkedHashMap: insert moves to the back, pop_front removes the oldest, to_back moves an entry"]
 
